@@ -134,8 +134,11 @@ func (z *ComplexNumber) QuoRem(x, y, r *ComplexNumber) (*ComplexNumber, *Complex
 	var q, rem ComplexNumber
 	q.Conjugate(y)
 	q.Mul(x, &q)
-	q.A0.Div(q.A0, norm)
-	q.A1.Div(q.A1, norm)
+	// round both coordinates to the nearest integer: the remainder then satisfies N(r) <= 3/4 N(y), which is what
+	// makes the Euclidean algorithm (HalfGCD) converge; flooring only gives N(r) < N(y)
+	half := new(big.Int).Rsh(norm, 1)
+	q.A0.Add(q.A0, half).Div(q.A0, norm)
+	q.A1.Add(q.A1, half).Div(q.A1, norm)
 	rem.Mul(y, &q)
 	rem.Sub(x, &rem)
 	z.Set(&q)
